@@ -8,13 +8,20 @@ EXTENDS Integers, Sequences, FiniteSets, TLC
 Unlimited == -1
 NodeKids(S, g) == {i \in 1..Len(S) : S[i].par = g}
 RowKids(rows, r) == {q \in 1..Len(rows) : rows[q].par = r}
-GroupNode(S, n) == IF \E i \in 1..Len(S) : S[i].kind = "GRP" /\ S[i].name = n
-                   THEN CHOOSE i \in 1..Len(S) : S[i].kind = "GRP" /\ S[i].name = n ELSE 0
+(* the structure node a group row stands for: found by descending from the message, so that a group name used at  *)
+(* two places of a structure (RPA_I08_AUTHORIZATION) designates the node of the place the row is at; 0 = none      *)
+RECURSIVE RowNode(_, _, _)
+RowNode(S, rows, r) ==
+  IF r = 0 THEN 0
+  ELSE LET p == rows[r].par
+           g == RowNode(S, rows, p)
+           c == {i \in NodeKids(S, g) : S[i].kind = "GRP" /\ S[i].name = rows[r].name}
+       IN IF (p # 0 /\ g = 0) \/ c = {} THEN 0 ELSE CHOOSE i \in c : TRUE
 CountNamed(rows, r, n) == Cardinality({q \in RowKids(rows, r) : rows[q].name = n})
 
 \* errors for the children of one parent (r = 0: the message, else a group row)
 ParentErrors(S, rows, r, pname) ==
-  LET g == IF r = 0 THEN 0 ELSE GroupNode(S, rows[r].name)
+  LET g == RowNode(S, rows, r)
       allowed == {S[i].name : i \in NodeKids(S, g)}
   IN {<<"missing", pname, S[i].name>> : i \in {k \in NodeKids(S, g) : CountNamed(rows, r, S[k].name) < S[k].min}}
      \cup {<<"limit", pname, S[i].name>> : i \in {k \in NodeKids(S, g) : S[k].max # Unlimited /\ CountNamed(rows, r, S[k].name) > S[k].max}}
@@ -24,7 +31,7 @@ Visited(S, rows, r) ==   \* is row r reached by a descent that only follows decl
   LET RECURSIVE ok(_)
       ok(q) == IF q = 0 THEN TRUE
                ELSE LET p == rows[q].par
-                        g == IF p = 0 THEN 0 ELSE GroupNode(S, rows[p].name)
+                        g == RowNode(S, rows, p)
                     IN ok(p) /\ \E i \in NodeKids(S, g) : S[i].name = rows[q].name /\ S[i].kind = rows[q].kind
   IN ok(r)
 StructErrors(S, rows, msgname) ==
